@@ -9,7 +9,7 @@ import copy
 HOSTS = ['a.test', 'b.test', 'c.test']
 IPS = {'a.test': '10.0.0.1', 'b.test': '10.0.0.2', 'c.test': '10.0.0.3'}
 
-DEFAULT_OPTS = dict(recursive=1, level=0, pagereq=0, spanhosts=0, strong=1, tries=2, maxredir=3, robots=0, auth=0, sitemaps=0,
+DEFAULT_OPTS = dict(recursive=1, level=0, pagereq=0, spanhosts=0, strong=1, tries=2, maxredir=3, robots=0, auth=0, sitemaps=0, ua='',
                     tags='', noparent=0, retryconn=0, retrydns=0)
 
 
@@ -125,6 +125,8 @@ def argv(scn, db, directory):
         a.append('--retry-connrefused')
     if o.get('retrydns'):
         a.append('--retry-dns-error')
+    if o.get('ua'):                  # the crawler's name: -U NAME, or the Wget way --header "User-Agent: NAME"
+        a += (['-U', o['ua'][2:]] if o['ua'].startswith('U:') else ['--header', 'User-Agent: ' + o['ua'][2:]])
     if o['auth'] == 1:
         a += ['--http-user', 'u', '--http-password', 'p']
     elif o['auth'] == 2:
@@ -433,6 +435,11 @@ def c20_catalogue(quick):
     out.append(scenario('robots-own-group-capitalised', [U(1, links=[2, 3]), U(2, disallowed=1), U(3)], dict(robots=1), N=1, robots=own))
     own2 = {'a.test': {'kind': 'rules', 'agent': 'WPULL', 'disallow': [], 'extra': 'Disallow: /priv/\n\nUser-agent: *\nDisallow:\n'}}
     out.append(scenario('robots-own-group-uppercase', [U(1, links=[2, 3]), U(2, disallowed=1), U(3)], dict(robots=1), N=1, robots=own2))
+    # the crawler is given another name (-U, or --header "User-Agent: ..."): the group of THAT name applies
+    named = {'a.test': {'kind': 'rules', 'agent': 'foobot', 'extra': '\nUser-agent: wpull\nDisallow: /none/\n\nUser-agent: *\nDisallow:\n'}}
+    for how in ('U:', 'H:'):
+        out.append(scenario('robots-renamed-crawler-%s' % how[0], [U(1, links=[2, 3]), U(2, disallowed=1), U(3)],
+                            dict(robots=1, ua=how + 'foobot/1.0'), N=1, robots=named))
     # the file is not valid UTF-8 (a Latin-1 byte in a comment): its rules still count
     l1 = {'a.test': {'kind': 'rules', 'encoding': 'latin-1', 'disallow': [], 'extra': '# caf\xe9 du coin\nDisallow: /priv/\n'}}
     out.append(scenario('robots-latin1-comment', [U(1, links=[2, 3]), U(2, disallowed=1), U(3)], dict(robots=1), N=1, robots=l1))
